@@ -88,6 +88,12 @@ pub struct Fl2 { #[serde(flatten)] i: P2, o: Option<u8>, #[serde(flatten)] j: Wi
 #[derive(Serialize, Deserialize, Debug, Clone)] pub struct FlK { a: u8, #[serde(flatten)] i: InnerUS }
 #[derive(Serialize, Deserialize, Debug, Clone)] pub struct FlMK { a: u8, #[serde(flatten)] m: BTreeMap<String, US> }
 #[derive(Serialize, Deserialize, Debug, Clone)] pub struct FlMC { a: u8, #[serde(flatten)] m: BTreeMap<String, char> }
+// skip_serializing_if: the derived Serialize announces only the fields it writes and calls skip_field for the others
+#[derive(Serialize, Deserialize, Debug, Clone)]
+pub struct SkipS { a: u8, #[serde(skip_serializing_if = "Option::is_none")] b_s: Option<u8>, c: Option<String>,
+                   #[serde(skip_serializing_if = "Option::is_none")] d_s: Option<P2>, e: bool }
+#[derive(Serialize, Deserialize, Debug, Clone)]
+pub enum SkipE { A, D { x: u8, #[serde(skip_serializing_if = "Option::is_none")] y_s: Option<i8>, #[serde(skip_serializing_if = "Option::is_none")] z_s: Option<String> } }
 // zero-copy fields below nodes that serde deserialises through deserialize_any + Content buffering
 #[derive(Serialize, Deserialize, Debug, Clone)] pub struct InnerB<'a> { #[serde(borrow)] s: &'a str, n: u8 }
 #[derive(Serialize, Deserialize, Debug, Clone)] #[serde(tag = "t")]
@@ -295,6 +301,14 @@ canon_struct!(InnerC { c });
 canon_struct!(InnerUS { k });
 canon_struct!(InnerE { e });
 canon_struct!(Fl { a, i, z });
+canon_struct!(SkipS { a, b_s, c, d_s, e });
+impl Canon for SkipE {
+    fn parse(p: &mut P) -> Self {
+        let r = match vopen(p) { 0 => { punit(p); SkipE::A } _ => { let (x, y_s, z_s) = Canon::parse(p); SkipE::D { x, y_s, z_s } } };
+        p.eat(b')'); r
+    }
+    fn show(&self) -> String { match self { SkipE::A => vs(0, "()".into()), SkipE::D { x, y_s, z_s } => vs(1, l(vec![x.show(), y_s.show(), z_s.show()])) } }
+}
 impl Canon for InnerB<'static> {
     fn parse(p: &mut P) -> Self { let (s, n) = Canon::parse(p); InnerB { s, n } }
     fn show(&self) -> String { l(vec![self.s.show(), self.n.show()]) }
@@ -622,7 +636,7 @@ registry! {
     "Nested" => Nested; "Wide" => Wide; "Ext" => Ext; "Ext2" => Ext2; "Ext1" => Ext1; "ExtU" => ExtU;
     "InnerU" => InnerU; "InnerC" => InnerC; "InnerUS" => InnerUS; "InnerE" => InnerE;
     "Int" => Int; "IntF" => IntF; "Adj" => Adj; "Unt" => Unt; "UntF" => UntF;
-    "Hr" => Hr; "arr4(u8)" => Ip4; "InnerB" => InnerB<'static>; "IntB" => IntB<'static>; "AdjB" => AdjB<'static>; "UntB" => UntB<'static>; "FlB" => FlB<'static>;
+    "Hr" => Hr; "arr4(u8)" => Ip4; "SkipS" => SkipS; "SkipE" => SkipE; "opt(SkipS)" => Option<SkipS>; "seq(SkipS)" => Vec<SkipS>; "InnerB" => InnerB<'static>; "IntB" => IntB<'static>; "AdjB" => AdjB<'static>; "UntB" => UntB<'static>; "FlB" => FlB<'static>;
     "Fl" => Fl; "Fl2" => Fl2; "FlM" => FlM; "FlU" => FlU; "FlF" => FlF; "FlFC" => FlFC; "FlK" => FlK; "FlMK" => FlMK; "FlMC" => FlMC;
     "opt(u8)" => Option<u8>; "opt(string)" => Option<String>; "opt(unit)" => Option<()>; "opt(opt(u8))" => Option<Option<u8>>, lossy;
     "opt(NTO)" => Option<NTO>, lossy; "opt(P2)" => Option<P2>; "opt(Ext)" => Option<Ext>; "opt(US)" => Option<US>;
